@@ -566,7 +566,9 @@ theorem stepSimple_WF_K (s s' : St) (r : String) (op : Op) (hw : WF s) (h : step
     · split at h <;> wf_done h hw
   case masgK j i =>
     split at h
-    · split at h <;> wf_done h (hw.discOpt _)
+    · split at h
+      · wf_done h hw
+      · split at h <;> wf_done h (hw.discOpt _)
     · wf_done h hw
   case swapK i j => split at h <;> wf_done h hw
   case relK c k => split at h <;> wf_done h hw
